@@ -1,6 +1,69 @@
+//! W5/W6 — disk and observation-socket worlds (DESIGN.md §4 "W5", "W6"), both
+//! fault enumerations:
+//!   C27  key persistence: the real `nts_key_provider::spawn` loop and
+//!        `KeySetProvider::{load,store,rotate}` on a simulated disk (hook H10);
+//!   C38  the real `sockets::{write_json, read_json}` over a simulated stream.
+
+mod c27;
+mod c38;
+
+use simkit::batch::{cli_main, Level, Property, WorldDef};
+
+fn run() {
+    match simkit::focus() {
+        "C38" => c38::run(),
+        _ => c27::run(),
+    }
+}
+
 fn main() {
-    let _ = ntpd::verif::keys::mount("x");
-    let _ = ntpd::verif::observe::write_json::<u8>;
-    let ks = ntp_proto::KeySetProvider::new(1).get();
-    let _ = ks.verif_disk_view();
+    cli_main(WorldDef {
+        name: "w5",
+        run,
+        properties: vec![
+            Property {
+                id: "C27",
+                level: Level::FaultEnumeration,
+                quick_runs: 0,
+                thorough_runs: 0,
+                quick_wall_s: 85.0,
+                thorough_wall_s: 900.0,
+                event_cap: 5_000,
+                enumerate: Some(c27::enumerate),
+                rule: "one run = one enumerated case of the real key provider (spawn: load / fresh fallback / truncate-then-write / rotate loop) on the simulated disk: (A) every crash point = every prefix of the write stream after the truncating open (and 'before the open') of the store after 0-4 rotations, over no / empty / shorter / longer / garbage pre-existing files and history 0,1,3; (B) clean restart and every single I/O fault (ENOSPC, EIO, EINTR, short write on the k-th write; open errors; short/EINTR/EIO reads of the next load), with and without a later clean rotation; (C) every truncation length, header field value classes (time, id_offset, len x primary), every header bit and one bit of every key byte of stored files with 1, 2, 4 keys",
+                assumptions: &[
+                    "process-crash semantics: writes issued before the crash survive in order (no power-loss reordering, no lost metadata)",
+                    "std::fs::{File,OpenOptions} and std::thread::sleep in nts_key_provider.rs are replaced by the simulated disk / simulator-released park (hook H10); std::fs::metadata (permission warning only) is not simulated",
+                    "SystemTime::now() in the file header is the real wall clock (kept out of control flow and out of the event log)",
+                ],
+            },
+            Property {
+                id: "C38",
+                level: Level::FaultEnumeration,
+                quick_runs: 0,
+                thorough_runs: 0,
+                quick_wall_s: 85.0,
+                thorough_wall_s: 900.0,
+                event_cap: 1_000,
+                enumerate: Some(c38::enumerate),
+                rule: "one run = one (state, fault case): boundary-value ObservableStates built from an independent plain specification x {intact, split at every position of prefix and payload, EOF at every offset, read chunks of 1..64 bytes with spurious Pending, real writer with seeded short writes/reads, 14 announced lengths x every split of the 8-byte prefix x payload present/absent}",
+                assumptions: &[
+                    "states are constructed from boundary values through public constructors / pub fields (not harvested from W1 runs)",
+                    "the unix socket itself (accept loop, permissions) is replaced by the simulated duplex stream",
+                ],
+            },
+        ],
+        real_components: &[
+            "ntpd::daemon::nts_key_provider::spawn (load, fresh-key fallback, rotation loop with truncate-then-write, mode 0600)",
+            "ntp_proto::KeySetProvider::{new, load, store, rotate, get}, KeySet::{encode_cookie, decode_cookie}",
+            "ntp_proto::Server::handle with the restored key set (NTS request / response, new cookies)",
+            "ntpd::daemon::sockets::{write_json, read_json}",
+            "serde impls of ObservableState, ProgramData, SystemSnapshot, ObservableSourceState, ServerStats/Counter, NtpDuration, NtpTimestamp",
+        ],
+        stub_components: &[
+            "file system -> simfs (/verif/hooks/ntpd/facade_keys.rs)",
+            "rotation sleep -> park released by the simulator",
+            "unix stream socket -> simkit::stream::duplex",
+        ],
+    })
 }
